@@ -273,6 +273,25 @@ def view2 (now : Nat) (id origin : Nat) (c : H2) : Pool.Conn :=
   { id := id, origin := origin, closed := Gen.h2IsClosed c, expired := Gen.h2HasExpired c now,
     idle := Gen.h2IsIdle c, available := Gen.h2IsAvailable c }
 
+open Httpcore.Pool in
+/-- what the pass reads from an HTTP/1.1 connection object at clock reading `now`, with the socket readable or not -/
+def view1 (now : Nat) (readable : Bool) (id origin : Nat) (c : H1) : Pool.Conn :=
+  { id := id, origin := origin, closed := Gen.h1IsClosed c, expired := Gen.h1HasExpired c now readable,
+    idle := Gen.h1IsIdle c, available := Gen.h1IsAvailable c }
+
+/-- **in-use HTTP/1.1 connection, as the pool sees it**: not expired (even though response bytes make its socket readable), not idle,
+not closed, not available. -/
+theorem h1_in_use_view (ka : Option Nat) (ops : List Op1) (now : Nat) (readable : Bool) (id origin : Nat) :
+    let g := run1 (init1 ka) ops
+    g.c.st = .active →
+    (view1 now readable id origin g.c).expired = false ∧ (view1 now readable id origin g.c).idle = false ∧
+    (view1 now readable id origin g.c).closed = false ∧ (view1 now readable id origin g.c).available = false := by
+  intro g ha
+  obtain ⟨h1, h2⟩ := h1_in_use_never_expires ka ops now readable ha
+  refine ⟨h2, h1, ?_, ?_⟩
+  · simp [view1, Gen.h1IsClosed, show g.c.st = .active from ha]
+  · simp [view1, Gen.h1IsAvailable, show g.c.st = .active from ha]
+
 /-- **in-use HTTP/2 connection, as the pool sees it**: not expired and not idle - so the only branches of the house-keeping loop
 that could take it are "closed" (it is not) and "abandoned" (which spares every connection held by a request). -/
 theorem h2_in_use_view (ka : Option Nat) (ops : List Op2) (now id origin : Nat) :
